@@ -416,3 +416,9 @@ def r8(ctx):
 def r9(ctx):
     from .c17 import r6 as rejected_frame_consumed
     rejected_frame_consumed(ctx)
+
+
+@rule("R-C02-10", min_instances=3, title="the frame stream starts where the handshake response ends: the response head is read byte by byte, nothing behind its empty line is consumed or dropped")
+def r_sib_r_c02_10(ctx):
+    from .c03 import r4 as head_read_exactly
+    head_read_exactly(ctx)
